@@ -369,6 +369,51 @@ pub struct Model {
     pub accepted_probes: Vec<(u32, i32, Mode, Api, u32)>,
 }
 
+/// Region removed by a block-alternate on instruction `i`: opener..=matching end for
+/// block/loop/if, else..=last instruction before the if's end for else.
+pub fn block_region(body: &[MInstr], i: usize) -> Option<(usize, usize)> {
+    let n = body.len();
+    match body.get(i)?.ins {
+        Ins::Block(_) | Ins::Loop(_) | Ins::If(_) => {
+            let mut depth = 0i32;
+            let mut j = i;
+            while j < n {
+                match body[j].ins {
+                    Ins::Block(_) | Ins::Loop(_) | Ins::If(_) => depth += 1,
+                    Ins::End => {
+                        depth -= 1;
+                        if depth == 0 {
+                            return Some((i, j));
+                        }
+                    }
+                    _ => {}
+                }
+                j += 1;
+            }
+            None
+        }
+        Ins::Else => {
+            let mut depth = 0i32;
+            let mut j = i + 1;
+            while j < n {
+                match body[j].ins {
+                    Ins::Block(_) | Ins::Loop(_) | Ins::If(_) => depth += 1,
+                    Ins::End => {
+                        if depth == 0 {
+                            return Some((i, j - 1));
+                        }
+                        depth -= 1;
+                    }
+                    _ => {}
+                }
+                j += 1;
+            }
+            None
+        }
+        _ => None,
+    }
+}
+
 pub fn func_magic_of(body: &[Ins]) -> Option<i64> {
     for w in body.windows(2) {
         if let (Ins::I64Const(v), Ins::Drop) = (&w[0], &w[1]) {
@@ -879,6 +924,7 @@ impl Model {
                 Returned::Id(id)
             }
             Op::DeleteFunc { id } => {
+                self.accepted_probes.retain(|p| p.0 != *id);
                 self.funcs[*id as usize].deleted = true;
                 if let MFK::Import { imp, .. } = self.funcs[*id as usize].kind {
                     self.imports[imp as usize].deleted = true;
@@ -897,6 +943,7 @@ impl Model {
                     tag: Some(tag.clone().unwrap_or_default()),
                     added: true,
                 });
+                self.accepted_probes.retain(|p| p.0 != *id);
                 let f = &mut self.funcs[*id as usize];
                 f.kind = MFK::Import { imp, ty: *ty };
                 f.deleted = false;
@@ -1122,13 +1169,14 @@ impl Model {
                         let branchy = mi.ins.is_branch();
                         let applicable = match s.mode {
                             Mode::SemanticAfter => blocky || branchy,
-                            Mode::BlockEntry | Mode::BlockExit | Mode::BlockAlt => blocky,
-                            // the empty block-alt setter performs no applicability check
+                            Mode::BlockEntry | Mode::BlockExit | Mode::BlockAlt | Mode::EmptyBlockAlt => blocky,
                             _ => true,
                         };
-                        if !applicable {
-                            continue; // expected to be rejected at the call (panic)
-                        }
+                        // Whether a non-applicable request is accepted is the library's call: the
+                        // executor removes the sites that were rejected (panicked) before applying
+                        // the op to the model, so whatever arrives here was accepted and must be
+                        // reflected (C22).
+                        let _ = applicable;
                         let push = |lst: &mut ModeList| {
                             lst.ins.extend(s.body.iter().cloned());
                             if let Some(t) = &s.tag {
@@ -1154,7 +1202,19 @@ impl Model {
                         accepted.push((f, s.magic, s.mode, *api, s.instr));
                     }
                 }
-                self.accepted_probes.extend(accepted);
+                // replay in order: an empty (block-)alternate replaces whatever replacement was
+                // requested before it
+                for a in accepted {
+                    let wiped = match a.2 {
+                        Mode::EmptyAlternate => Some(Mode::Alternate),
+                        Mode::EmptyBlockAlt => Some(Mode::BlockAlt),
+                        _ => None,
+                    };
+                    if let Some(w) = wiped {
+                        self.accepted_probes.retain(|p| !(p.0 == f && p.4 == a.4 && p.2 == w));
+                    }
+                    self.accepted_probes.push(a);
+                }
                 Returned::None
             }
         }
